@@ -266,6 +266,25 @@ func saveMatchesModel(c *vm.Ctx, s *save.Chunk, ch *level.Chunk, d *chunkDesc, a
 		}
 	}
 	for si := range s.Sections {
+		// the biome names first: a section without a block palette (more than 256 states, direct ids) still has
+		// a biome palette to look at
+		if bp := s.Sections[si].Biomes.Palette; len(bp) != 0 {
+			bhave := map[string]bool{}
+			for _, b := range bp {
+				bhave[string(b)] = true
+			}
+			for _, v := range m.biomes[si] {
+				if !bhave[biome.Type(v).String()] {
+					return bad("biome-name-missing", fmt.Sprintf("section %d holds biome id %d (%s); the biome palette of the save form does not list it", si, v, biome.Type(v).String()))
+				}
+				if pin, ok := pinnedBiomes[v]; ok && !bhave[pin] {
+					return bad("pinned-biome", fmt.Sprintf("section %d holds biome id %d, which is %s; the biome palette of the save form does not list it", si, v, pin))
+				}
+			}
+			if len(s.Sections[si].BlockStates.Palette) == 0 {
+				c.Cover("save.form.biome-names-without-block-palette")
+			}
+		}
 		pal := s.Sections[si].BlockStates.Palette
 		if len(pal) == 0 {
 			c.Cover("save.form.no-block-palette")
@@ -295,22 +314,6 @@ func saveMatchesModel(c *vm.Ctx, s *save.Chunk, ch *level.Chunk, d *chunkDesc, a
 					return bad("pinned-state", fmt.Sprintf("section %d holds state %d, which is %s; the palette of the save form has no such entry", si, v, pin))
 				}
 				c.Cover("save.pinned-state-seen")
-			}
-		}
-		bp := s.Sections[si].Biomes.Palette
-		if len(bp) == 0 {
-			continue
-		}
-		bhave := map[string]bool{}
-		for _, b := range bp {
-			bhave[string(b)] = true
-		}
-		for _, v := range m.biomes[si] {
-			if !bhave[biome.Type(v).String()] {
-				return bad("biome-name-missing", fmt.Sprintf("section %d holds biome id %d (%s); the biome palette of the save form does not list it", si, v, biome.Type(v).String()))
-			}
-			if pin, ok := pinnedBiomes[v]; ok && !bhave[pin] {
-				return bad("pinned-biome", fmt.Sprintf("section %d holds biome id %d, which is %s; the biome palette of the save form does not list it", si, v, pin))
 			}
 		}
 	}
